@@ -47,8 +47,8 @@ class Malformed(Exception):
 # ---------------------------------------------------------------------------------------------------
 # time expressions (TTML2 12.3.1 <time-expression>, media time base)
 
-_CLOCK = re.compile(r"^(\d{2,}):(\d\d):(\d\d)(?:(\.\d+)|:(\d{2,}))?$")
-_OFFSET = re.compile(r"^(\d+(?:\.\d+)?)(h|ms|m|s|f|t)$")
+_CLOCK = re.compile(r"^([0-9]{2,}):([0-9][0-9]):([0-9][0-9])(?:(\.[0-9]+)|:([0-9]{2,}))?$")
+_OFFSET = re.compile(r"^([0-9]+(?:\.[0-9]+)?)(h|ms|m|s|f|t)$")
 
 
 ZERO = Fraction(0)
@@ -109,7 +109,7 @@ def _parse_time(expr, frame_rate, multiplier, tick_rate):
 # ---------------------------------------------------------------------------------------------------
 # style values (TTML2 10.2 / 10.3, IMSC 1.1 section 8, EBU-TT-D for ebutts:)
 
-_LENGTH = re.compile(r"^([+-]?(?:\d+(?:\.\d+)?|\.\d+))(px|em|c|%|rh|rw)$")
+_LENGTH = re.compile(r"^([+-]?(?:[0-9]+(?:\.[0-9]+)?|\.[0-9]+))(px|em|c|%|rh|rw)$")
 
 NAMED_COLORS = {
   "transparent": (0, 0, 0, 0), "black": (0, 0, 0, 255), "silver": (192, 192, 192, 255), "gray": (128, 128, 128, 255),
@@ -119,8 +119,8 @@ NAMED_COLORS = {
   "teal": (0, 128, 128, 255), "aqua": (0, 255, 255, 255), "cyan": (0, 255, 255, 255),
 }
 _HEX = re.compile(r"^#([0-9a-fA-F]{2})([0-9a-fA-F]{2})([0-9a-fA-F]{2})([0-9a-fA-F]{2})?$")
-_RGB = re.compile(r"^rgb\(\s*(\d+)\s*,\s*(\d+)\s*,\s*(\d+)\s*\)$")
-_RGBA = re.compile(r"^rgba\(\s*(\d+)\s*,\s*(\d+)\s*,\s*(\d+)\s*,\s*(\d+)\s*\)$")
+_RGB = re.compile(r"^rgb\(\s*([0-9]+)\s*,\s*([0-9]+)\s*,\s*([0-9]+)\s*\)$")
+_RGBA = re.compile(r"^rgba\(\s*([0-9]+)\s*,\s*([0-9]+)\s*,\s*([0-9]+)\s*,\s*([0-9]+)\s*\)$")
 
 
 def p_length(s, units=None):
@@ -332,7 +332,7 @@ def p_line_height(s):
 
 
 def p_float(s):
-  if not re.match(r"^[+-]?(\d+(\.\d+)?|\.\d+)$", s):
+  if not re.match(r"^[+-]?([0-9]+(\.[0-9]+)?|\.[0-9]+)$", s):
     raise Malformed("not a number")
   return float(s)
 
@@ -623,7 +623,7 @@ def _tmax(a, b):
 
 
 def _int_pair(s):
-  m = re.match(r"^(\d+) (\d+)$", s or "")
+  m = re.match(r"^([0-9]+) ([0-9]+)$", s or "")
   if not m:
     raise Malformed("expected two integers")
   return int(m.group(1)), int(m.group(2))
@@ -677,7 +677,7 @@ class _Interp:
         except Malformed:
           pass
     fr = a.get(q(NS_TTP, "frameRate"))
-    if fr is not None and re.match(r"^\d+$", fr) and int(fr) > 0:
+    if fr is not None and re.match(r"^[0-9]+$", fr) and int(fr) > 0:
       d.frame_rate = int(fr)
       d.frame_rate_specified = True
     try:
@@ -688,7 +688,7 @@ class _Interp:
     except Malformed:
       pass
     tr = a.get(q(NS_TTP, "tickRate"))
-    if tr is not None and re.match(r"^\d+$", tr) and int(tr) > 0:
+    if tr is not None and re.match(r"^[0-9]+$", tr) and int(tr) > 0:
       d.tick_rate = Fraction(int(tr))
     else:
       # TTML2 6.2.10: effective frame rate x sub-frame rate if a frame rate is specified, otherwise 1
